@@ -1,5 +1,133 @@
 import NimaVerif.Lemmas.Trivia
-/-! # C02 — placeholder (trivia-algebra theorems are being proved). -/
+/-!
+# C02 — canonical (RFC-0166-formatted) text is reproduced byte for byte (trivia algebra)
+
+The gap-level identities the byte-for-byte reproduction of canonical source rests on: a canonical
+separator, a canonical gap between the items of a multi-line container and a canonical comment are
+each reproduced exactly by classify-then-render. Theorems about `Model/Trivia.lean`; SPEC notions
+in `Model/TriviaSpec.lean`. The per-construct renderers are observed by the harness, not modelled.
+-/
 namespace Nima.C02
-theorem separator_inline (i : Nat) : separatorFromLayout (Layout.fromGap [' ']) i = [' '] := by simp [separatorFromLayout, Layout.fromGap, containsNL]
+
+/-! ## Canonical separators -/
+
+/-- A canonical separator — one space, or a line break / one blank line followed by an indentation
+    run — is reproduced byte for byte, whatever the indentation default. -/
+theorem separator_canonical (k i : Nat) :
+    separatorFromLayout (Layout.fromGap [' ']) i = [' '] ∧
+    separatorFromLayout (Layout.fromGap ('\n' :: spaces k)) i = '\n' :: spaces k ∧
+    separatorFromLayout (Layout.fromGap ('\n' :: '\n' :: spaces k)) i = '\n' :: '\n' :: spaces k := by
+  refine ⟨rfl, ?_, ?_⟩
+  · rw [fromGap_nl_spaces]; rfl
+  · rw [fromGap_nlnl_spaces]; rfl
+
+/-- In terms of the normal form of C18: every non-empty normal-form separator is reproduced. -/
+theorem normal_separator_reproduced (s : Text) (i : Nat) (h : NormalSep s) (hne : s ≠ []) :
+    separatorFromLayout (Layout.fromGap s) i = s := by
+  rcases h with rfl | rfl | ⟨k, rfl | rfl⟩
+  · exact absurd rfl hne
+  · rfl
+  · exact (separator_canonical k i).2.1
+  · exact (separator_canonical k i).2.2
+
+/-- full statement (false): every normal-form separator is reproduced -/
+def normal_separator_reproduced_full : Prop :=
+  ∀ (s : Text) (i : Nat), NormalSep s → separatorFromLayout (Layout.fromGap s) i = s
+
+/-- The empty separator is not reproduced by `separator_from_layout` (it answers one space): tokens
+    that are adjacent in canonical text (`x;`, `f:`) are not written through it. -/
+theorem cex_empty_separator : ¬ normal_separator_reproduced_full := by
+  intro h
+  have := h [] 0 (Or.inl rfl)
+  revert this; decide
+
+/-- With comments in between: after a rendered comment block that ends in a line break the
+    separator for a canonical gap is the indentation run alone, so block ++ separator reproduces
+    `…\n` ++ indentation. -/
+theorem separator_after_comments_canonical (cs : Text) (k : Nat) (h : endsWithNL cs = true) :
+    separatorFromLayoutWithComments (Layout.fromGap ('\n' :: spaces k)) cs = spaces k := by
+  rw [fromGap_nl_spaces]
+  simp [separatorFromLayoutWithComments, h]
+
+/-! ## Canonical gaps between the items of a multi-line container -/
+
+/-- The markers collected from a canonical gap, rendered between two items at the gap's own
+    indentation, give the gap back: a plain line break and one blank line. -/
+theorem canonical_gap_reproduced (k : Nat) :
+    '\n' :: formatTrivia (appendGapTrivia [] ('\n' :: spaces k)) k ++ spaces k = '\n' :: spaces k ∧
+    '\n' :: formatTrivia (appendGapTrivia [] ('\n' :: '\n' :: spaces k)) k ++ spaces k = '\n' :: '\n' :: spaces k := by
+  constructor
+  · have : appendGapTrivia [] ('\n' :: spaces k) = [.linebreak] := by
+      unfold appendGapTrivia; simp [gapHasEmptyLine_nl_spaces, containsNL_cons]
+    rw [this]; rfl
+  · have : appendGapTrivia [] ('\n' :: '\n' :: spaces k) = [.emptyLine] := by
+      unfold appendGapTrivia; simp [gapHasEmptyLine_nlnl_spaces]
+    rw [this]; rfl
+
+/-- An own-line comment block in canonical layout — every comment at the container's indentation
+    on its own line, optional single blank lines between — is what `format_trivia` writes. -/
+theorem canonical_comment_lines (ts : List Trivia) (i : Nat) (h : CommaFree ts) :
+    formatTrivia ts i = ts.flatMap (itemText i) :=
+  formatTrivia_eq_flatMap ts i h
+
+/-! ## Canonical comments -/
+
+/-- A line comment in canonical form (`#`, `#text`, `# text`, `#!…`; anything but `# ` alone) is
+    reproduced character for character. -/
+theorem line_comment_canonical (col : Nat) (r : Text) (hnl : containsNL r = false) (h : r ≠ [' ']) :
+    (Comment.fromText col ('#' :: r)).rebuild 0 = '#' :: r := by
+  rw [line_comment_rebuild col 0 r hnl, if_neg h]; rfl
+
+/-- A single-line block comment `/* x */` or `/** x */` whose text `x` has no white space at its
+    ends and no line break is reproduced character for character. -/
+theorem single_line_block_canonical (col i : Nat) (doc : Bool) (x : Text)
+    (hx : Stripped isPyWhitespace x) (hnl : containsNL x = false) :
+    (Comment.fromText col (blockOpening doc ++ [' '] ++ x ++ [' ', '*', '/'])).token i
+      = blockOpening doc ++ [' '] ++ x ++ [' ', '*', '/'] := by
+  rw [fromText_single_block col doc x hx hnl]
+  simp [Comment.token, hnl, blockOpening]
+
+/-- A multi-line block comment in canonical form — first line on the opener's line (or empty)
+    without surrounding blanks, continuation lines indented by the comment's column plus their
+    common inner indentation `m`, last line without trailing blanks, closer after one space or alone
+    on its line at the comment's column (`CanonML`) — is reproduced character for character when
+    read at the column it is written at. -/
+theorem multiline_block_canonical (first : Text) (bs : List Text) (bl : Text) (m : Nat) (doc : Bool)
+    (i : Nat) (h : CanonML first (bs ++ [bl]) m) :
+    (Comment.fromText i ((mlComment first (bs ++ [bl]) m doc).token i)).token i
+      = (mlComment first (bs ++ [bl]) m doc).token i := by
+  have := canon_fixed first bs bl m doc false i h
+  rw [show ({ mlComment first (bs ++ [bl]) m doc with inline := false } : Comment)
+      = mlComment first (bs ++ [bl]) m doc from rfl] at this
+  rw [this]
+
+/-- …and its text is the expected one: opener, first line, indented continuation lines, closer. -/
+theorem multiline_block_canonical_text (first : Text) (bs : List Text) (bl : Text) (m : Nat) (doc : Bool)
+    (i : Nat) (h : CanonML first (bs ++ [bl]) m) :
+    (mlComment first (bs ++ [bl]) m doc).token i =
+      blockOpening doc ++
+        joinLines (((if first.isEmpty then [] else [' ']) ++ first) ::
+          (bs.map (padLine (i + m)) ++ [padLine (i + m) bl ++ (if bl.isEmpty then spaces i else [' '])])) ++
+        ['*', '/'] :=
+  canon_token first bs bl m doc false i h
+
+/-- Every comment the tool has written once is canonical in this sense (`from_cst` establishes
+    `CanonML`), so the tool reproduces its own comments. -/
+theorem written_comments_are_canonical (col : Nat) (inner : Text) (h : containsNL inner = true) :
+    CanonML (mlFirst inner) (mlBody (mlNormalized col inner)) (minIndent (mlNormalized col inner)) :=
+  fromText_canon col inner h
+
+/-! ## Examples (non-vacuity) -/
+
+example : NormalSep "\n\n    ".toList ∧ "\n\n    ".toList ≠ [] := by decide
+example : separatorFromLayout (Layout.fromGap "\n\n    ".toList) 0 = "\n\n    ".toList := by decide
+example : (Comment.fromText 2 "/* a\n     b\n  */".toList).token 2 = "/* a\n     b\n  */".toList := by decide
+example : (Comment.fromText 0 "/**\n  Doc\n*/".toList).token 0 = "/**\n  Doc\n*/".toList := by decide
+example : (Comment.fromText 4 "# see https://example.org".toList).rebuild 0 = "# see https://example.org".toList := by decide
+/-- a canonical multi-line comment: `/* a⏎ b⏎*/` with inner indentation 3, closer on its own line -/
+example : CanonML "a".toList ["b".toList, []] 3 :=
+  written_comments_are_canonical 4 " a\n       b\n     ".toList (by decide)
+/-- a non-canonical gap is normalised, not reproduced -/
+example : separatorFromLayout (Layout.fromGap "\t \r\n\n   ".toList) 0 = "\n\n   ".toList := by decide
+
 end Nima.C02
